@@ -157,7 +157,10 @@ func (x *c16Lab) fail(where string, err error) {
 
 // sweep moves every spendable renter output into one unconfirmed output, so
 // that the next funding has to use an unconfirmed input with a parent.
-func (x *c16Lab) sweep() (types.Currency, error) {
+func (x *c16Lab) sweep() (types.Currency, error) { return x.sweepInto(1) }
+
+// sweepInto moves every spendable renter output into n equal unconfirmed outputs.
+func (x *c16Lab) sweepInto(n int) (types.Currency, error) {
 	w := x.l.RentWallet.W
 	outs, err := w.SpendableOutputs()
 	if err != nil {
@@ -171,7 +174,15 @@ func (x *c16Lab) sweep() (types.Currency, error) {
 	if len(outs) == 0 || sum.Cmp(fee) <= 0 {
 		return types.ZeroCurrency, fmt.Errorf("%w: nothing to sweep", rhpmitm.ErrHarness)
 	}
-	txn := types.V2Transaction{MinerFee: fee, SiacoinOutputs: []types.SiacoinOutput{{Address: w.Address(), Value: sum.Sub(fee)}}}
+	txn := types.V2Transaction{MinerFee: fee}
+	part := sum.Sub(fee).Div64(uint64(n))
+	for i := 0; i < n; i++ {
+		v := part
+		if i == n-1 {
+			v = sum.Sub(fee).Sub(part.Mul64(uint64(n - 1)))
+		}
+		txn.SiacoinOutputs = append(txn.SiacoinOutputs, types.SiacoinOutput{Address: w.Address(), Value: v})
+	}
 	basis, toSign, err := w.FundV2Transaction(&txn, sum, false)
 	if err != nil {
 		return types.ZeroCurrency, fmt.Errorf("%w: sweep funding: %v", rhpmitm.ErrHarness, err)
@@ -481,6 +492,9 @@ func (x *c16Lab) attempt(cse c16Case, noCleanup bool) (succeeded bool) {
 		x.fail("snapshot", fmt.Errorf("%v %v", err1, err2))
 		return
 	}
+	// what each wallet could fund right now (renter: also from unconfirmed outputs)
+	rentFundable := rentPre.Balance.Spendable.Add(rentPre.Balance.Unconfirmed)
+	hostFundable := hostPre.Balance.Spendable
 	l.HostWallet.ResetCalls()
 	l.RentWallet.ResetCalls()
 	l.Contractor.ResetEvents()
@@ -761,6 +775,29 @@ func (x *c16Lab) attempt(cse c16Case, noCleanup bool) (succeeded bool) {
 		if len(hostLeak) > 0 || len(rentLeak) > 0 {
 			r.Count("reservation_leaks_observed", 1)
 		}
+		// the semantic form of "released": everything the wallet could fund
+		// before the attempt - confirmed AND unconfirmed (ephemeral) outputs - can
+		// be funded again right now
+		if !residue {
+			probe := func(w *rhpmitm.Wallet, amount types.Currency, useUnconfirmed bool, side string) {
+				if amount.IsZero() {
+					return
+				}
+				var txn types.V2Transaction
+				_, _, err := w.W.FundV2Transaction(&txn, amount, useUnconfirmed)
+				if err != nil {
+					viol(side+"-funds-not-fundable-again", "after a failed attempt the wallet can no longer fund the amount it could fund before the attempt: "+err.Error(), map[string]any{"amount": amount, "use_unconfirmed": useUnconfirmed, "inputs": cse.Inputs, "calls": w.Calls()})
+					return
+				}
+				w.W.ReleaseInputs(nil, []types.V2Transaction{txn})
+				r.Count("refunding_probes", 1)
+				if useUnconfirmed && cse.Inputs == "unconfirmed" {
+					r.Count("refunding_probes_with_unconfirmed_outputs", 1)
+				}
+			}
+			probe(l.RentWallet, rentFundable, true, "renter")
+			probe(l.HostWallet, hostFundable, false, "host")
+		}
 	}
 	if x.rpc != "form" && committed == nil && cse.Contract == "" && !residue {
 		x.pool.giveBack(*existing)
@@ -989,11 +1026,11 @@ func (x *c16Lab) corruptTable(inputs string) []mutation {
 	return out2
 }
 
-func newC16Lab(r *mon.Run, rpc string, stream uint64, only *c16Case, third bool) (*c16Lab, error) {
+func newC16Lab(r *mon.Run, rpc string, stream uint64, only *c16Case, third, second bool) (*c16Lab, error) {
 	x := &c16Lab{r: r, rpc: rpc, only: only}
 	f := &family{r: r, rng: r.RNG(stream)}
 	if rpc == "form" {
-		l, err := rhpmitm.NewLab(rhpmitm.Options{TwoNodes: true, HostBlocks: 24, RenterBlocks: 12, Observer: third, Bystander: third})
+		l, err := rhpmitm.NewLab(rhpmitm.Options{TwoNodes: true, HostBlocks: 24, RenterBlocks: 12, Observer: third || second, Bystander: third, SecondHost: second})
 		if err != nil {
 			return nil, err
 		}
@@ -1037,6 +1074,171 @@ func (x *c16Lab) storm(point mutation, n int) {
 	x.releaseAll()
 }
 
+// twoHosts: the renter, funded from unconfirmed outputs, forms a contract
+// with host A and - before the returned set is broadcast anywhere (its own
+// pool does not learn it) - another one with the independent host B, whose
+// pool cannot see what A pooled. Whatever reports success must be usable
+// together: pairwise-disjoint inputs, accepted one after the other by one
+// fresh pool, both mined into exactly the returned contracts.
+func (x *c16Lab) twoHosts(outputs int, bFirst bool) {
+	if x.dead {
+		return
+	}
+	l, r := x.l, x.r
+	h2 := l.Host2
+	order := "A-then-B"
+	if bFirst {
+		order = "B-then-A"
+	}
+	cse := c16Case{RPC: "form", Fault: mutation{Op: "none"}, Basis: "same", Inputs: fmt.Sprintf("unconfirmed-x%d", outputs), Phase: "two-hosts:" + order}
+	if outputs == 0 {
+		cse.Inputs = "confirmed"
+	}
+	if x.only != nil && x.only.sig() != cse.sig() {
+		return
+	}
+	viol := func(class, what string, detail any) {
+		r.Violation(fmt.Sprintf("%s:form:two-hosts", class), what, cse, detail)
+	}
+	if err := l.RefreshPrices(); err != nil {
+		x.fail("settings", err)
+		return
+	}
+	if outputs > 0 {
+		if _, err := x.sweepInto(outputs); err != nil {
+			x.fail("sweep", err)
+			return
+		}
+	}
+	type side struct {
+		name string
+		call func(ctx context.Context) (any, error)
+		t    *rhpmitm.Transport
+		cont *rhpmitm.Contractor
+	}
+	x.k++
+	pA := formationParams(l, x.k%7)
+	pB := formationParams(l, (x.k+3)%7)
+	a := side{"A", func(ctx context.Context) (any, error) {
+		res, err := rhp.RPCFormContract(ctx, l.T, l.RentPool, l.Signer, l.RenterNode.CM.TipState(), l.Prices, l.HostKey.PublicKey(), l.HostAddr, pA)
+		return attemptResult{res.Contract, res.FormationSet}, err
+	}, l.T, l.Contractor}
+	b := side{"B", func(ctx context.Context) (any, error) {
+		res, err := rhp.RPCFormContract(ctx, h2.T, l.RentPool, l.Signer, l.RenterNode.CM.TipState(), h2.Prices, h2.Key.PublicKey(), h2.Addr, pB)
+		return attemptResult{res.Contract, res.FormationSet}, err
+	}, h2.T, h2.Contractor}
+	sides := []side{a, b}
+	if bFirst {
+		sides = []side{b, a}
+	}
+	r.Eval()
+	r.Distinct(cse.sig())
+	r.Count("two_host_cases", 1)
+	before := l.HostNode.CM.Tip()
+	var okRes []attemptResult
+	var okNames []string
+	for _, sd := range sides {
+		out := monitoredCall(callDeadline, sd.call)
+		if out.Hung || out.Panic != nil {
+			viol("client-panic-or-hang", fmt.Sprintf("formation with host %s: hung=%v panic=%v", sd.name, out.Hung, out.Panic), out.Stack)
+			x.dead = true
+			return
+		}
+		if !sd.t.WaitQuiescent(rhpmitm.CallTimeout) {
+			x.fail("barrier", fmt.Errorf("host %s handlers did not finish", sd.name))
+			return
+		}
+		if out.Err == nil {
+			okRes = append(okRes, out.Res.(attemptResult))
+			okNames = append(okNames, sd.name)
+		} else {
+			r.Count("two_host_formation_refused:"+sd.name, 1)
+		}
+	}
+	switch len(okRes) {
+	case 2:
+		r.Count("two_host_both_succeeded", 1)
+	case 1:
+		r.Count("two_host_one_succeeded", 1)
+	default:
+		r.Count("two_host_none_succeeded", 1)
+	}
+	// pairwise-disjoint inputs over the formation transactions that reported success
+	used := map[types.SiacoinOutputID]string{}
+	for i, res := range okRes {
+		if len(res.Set.Transactions) == 0 {
+			continue
+		}
+		txn := res.Set.Transactions[len(res.Set.Transactions)-1]
+		for _, in := range txn.SiacoinInputs {
+			if other, dup := used[in.Parent.ID]; dup && other != okNames[i] {
+				viol("output-spent-by-two-successful-formations", "two formations that both reported success spend the same output (a reserved, still unconfirmed output was selected twice)", map[string]any{"output": in.Parent.ID, "hosts": []string{other, okNames[i]}, "renter_calls": l.RentWallet.Calls()})
+			}
+			used[in.Parent.ID] = okNames[i]
+		}
+	}
+	// one fresh pool accepts all of them, one after the other
+	for i, res := range okRes {
+		if _, err := l.Observer.CM.AddV2PoolTransactions(res.Set.Basis, res.Set.Transactions); err != nil {
+			viol("success-sets-not-jointly-accepted", fmt.Sprintf("the set returned by host %s (success) is rejected by a fresh pool that accepted the other successful set before: %v", okNames[i], err), map[string]any{"order": okNames})
+		}
+	}
+	blocks, err := l.Observer.MineTo(types.VoidAddress, 1)
+	if err == nil {
+		err = l.HostNode.AddBlocks(blocks)
+	}
+	if err == nil {
+		err = l.RenterNode.AddBlocks(blocks)
+	}
+	if err == nil {
+		err = h2.Node.AddBlocks(blocks)
+	}
+	if err != nil {
+		x.fail("confirming from the fresh pool", err)
+		return
+	}
+	diffs, err := chainDiffs(l, before)
+	if err != nil {
+		x.fail("chain diffs", err)
+		return
+	}
+	for i, res := range okRes {
+		found := false
+		for _, d := range diffs[res.Contract.ID] {
+			found = found || (d.Created && d.V2FileContractElement.V2FileContract == res.Contract.Revision)
+		}
+		if found {
+			r.Count("two_host_contracts_observed_on_chain", 1)
+		} else {
+			viol("contract-not-confirmed", fmt.Sprintf("the contract host %s returned with success is not on chain after the fresh pool's block", okNames[i]), res.Contract.ID)
+		}
+	}
+	// drain whatever is left (the sweep, refused leftovers) and reset reservations
+	for i := 0; i < 3; i++ {
+		for _, n := range []*rhpmitm.Node{l.RenterNode, h2.Node} {
+			if txns := n.CM.V2PoolTransactions(); len(txns) > 0 {
+				l.HostNode.CM.AddV2PoolTransactions(n.CM.Tip(), txns)
+			}
+		}
+		if len(l.HostNode.CM.V2PoolTransactions()) == 0 {
+			break
+		}
+		if err := l.Mine(types.VoidAddress, 1); err != nil {
+			x.fail("drain", err)
+			return
+		}
+	}
+	x.releaseAll()
+	if h2 != nil {
+		_, utxos, _ := h2.Wallet.Store.UnspentSiacoinElements()
+		var ids []types.SiacoinOutputID
+		for _, u := range utxos {
+			ids = append(ids, u.ID)
+		}
+		forceRelease(h2.Wallet, ids)
+	}
+}
+
 // releaseAll force-releases every output of both wallets.
 func (x *c16Lab) releaseAll() {
 	for _, w := range []*rhpmitm.Wallet{x.l.HostWallet, x.l.RentWallet} {
@@ -1053,7 +1255,7 @@ func (x *c16Lab) releaseAll() {
 }
 
 func runC16(r *mon.Run, replay string) {
-	r.Rule("fault table = RPC {form, renew, refresh-full, refresh-partial} x abort point {clean, stream cannot be opened, cut before/after the request, cut before/after the host inputs, injected RPCError, cut before/after the renter signatures, cut before/after / truncated final response, silent host, renter signatures swallowed} x basis relation {same tip, renter 1..3 blocks behind, renter on a stale fork of depth 1..3 unknown to / known by the host} x renter inputs {confirmed, one unconfirmed output with its parent}; plus every field of every message in both directions (reflection walk) x operator {flip low/high bit, zero, max, +1, -1, truncate, extend, duplicate, swap neighbours, nil pointer, other resolution type} at the same tip; plus renew/refresh of a contract that is still unconfirmed / unknown to the host / already renewed / expired; plus interface-failure injection: the k-th call of every error-returning method the client and the handlers invoke on the interfaces they were given (host chain manager V2TransactionSet/AddV2PoolTransactions/UpdateV2TransactionSet, contractor LockV2Contract/V2FileContractElement/AddV2Contract/RenewV2Contract, host wallet FundV2Transaction/BroadcastV2TransactionSet, the wallet's syncer, renter pool V2TransactionSet, renter wallet FundV2Transaction) fails, method x occurrence enumerated from a clean attempt of the same shape (confirmed/unconfirmed inputs x same tip/renter one block behind), each followed by a clean attempt, plus a signer that recommends a zero fee; plus a chain that moves DURING the exchange: before each message is forwarded (R0, H0, R1, H1) or inside the renter's signer callback, 1..3 blocks are mined on the host's node (fed to the renter's node at once or only afterwards), the first one optionally carrying a bystander transaction, and the success oracle is evaluated by an INDEPENDENT third node: its untouched pool must accept the returned (basis, set) pair at the current tip and its block must create exactly the returned contract; plus storms of 20 consecutive aborts at one abort point followed by a clean attempt; thorough adds every abort point at every basis relation, the field table for the message shapes with an unconfirmed renter parent, and PRNG double corruptions. Two chain managers (host, renter) are kept in sync by the lab except where the basis relation says otherwise. Enumerated completely; a case is non-trivial when it is a clean/abort case or its corruption changed the wire bytes.")
+	r.Rule("fault table = RPC {form, renew, refresh-full, refresh-partial} x abort point {clean, stream cannot be opened, cut before/after the request, cut before/after the host inputs, injected RPCError, cut before/after the renter signatures, cut before/after / truncated final response, silent host, renter signatures swallowed} x basis relation {same tip, renter 1..3 blocks behind, renter on a stale fork of depth 1..3 unknown to / known by the host} x renter inputs {confirmed, one unconfirmed output with its parent}; plus every field of every message in both directions (reflection walk) x operator {flip low/high bit, zero, max, +1, -1, truncate, extend, duplicate, swap neighbours, nil pointer, other resolution type} at the same tip; plus renew/refresh of a contract that is still unconfirmed / unknown to the host / already renewed / expired; plus interface-failure injection: the k-th call of every error-returning method the client and the handlers invoke on the interfaces they were given (host chain manager V2TransactionSet/AddV2PoolTransactions/UpdateV2TransactionSet, contractor LockV2Contract/V2FileContractElement/AddV2Contract/RenewV2Contract, host wallet FundV2Transaction/BroadcastV2TransactionSet, the wallet's syncer, renter pool V2TransactionSet, renter wallet FundV2Transaction) fails, method x occurrence enumerated from a clean attempt of the same shape (confirmed/unconfirmed inputs x same tip/renter one block behind), each followed by a clean attempt, plus a signer that recommends a zero fee; plus a chain that moves DURING the exchange: before each message is forwarded (R0, H0, R1, H1) or inside the renter's signer callback, 1..3 blocks are mined on the host's node (fed to the renter's node at once or only afterwards), the first one optionally carrying a bystander transaction, and the success oracle is evaluated by an INDEPENDENT third node: its untouched pool must accept the returned (basis, set) pair at the current tip and its block must create exactly the returned contract; plus two formations in a row with two INDEPENDENT hosts (separate chain managers and pools) funded from 1, 2 or 3 unconfirmed outputs or confirmed ones, in both orders, the first returned set withheld from every pool: all formations that report success must have pairwise-disjoint inputs, be accepted one after the other by one fresh pool and be mined into exactly the returned contracts; plus, after every failed attempt, a re-funding probe (the amount each wallet could fund before - the renter also from unconfirmed outputs - must be fundable again at once); plus storms of 20 consecutive aborts at one abort point followed by a clean attempt; thorough adds every abort point at every basis relation, the field table for the message shapes with an unconfirmed renter parent, and PRNG double corruptions. Two chain managers (host, renter) are kept in sync by the lab except where the basis relation says otherwise. Enumerated completely; a case is non-trivial when it is a clean/abort case or its corruption changed the wire bytes.")
 	r.Assume("core consensus and rhp/v4 cost functions are trusted; the in-repo EphemeralContractor/WalletStore are the host's and wallets' stores")
 	r.Assume("a failure seen by the renter after its signatures reached the host may legitimately coincide with a host-side commit (the final response cannot be made atomic); it is then checked as a host-side success")
 	r.Extra("exhaustive", true)
@@ -1084,11 +1286,14 @@ func runC16(r *mon.Run, replay string) {
 	}
 	var jobs []job
 	for _, rpc := range rpcs {
-		for _, part := range []string{"abort-same", "abort-basis-a", "abort-basis-b", "corrupt-R0", "corrupt-R1", "corrupt-H0", "corrupt-H1a", "corrupt-H1b", "corrupt-R0u", "corrupt-H1u", "corrupt-double", "storm", "inject", "contract-state", "mid-rpc-host", "mid-rpc-both"} {
+		for _, part := range []string{"abort-same", "abort-basis-a", "abort-basis-b", "corrupt-R0", "corrupt-R1", "corrupt-H0", "corrupt-H1a", "corrupt-H1b", "corrupt-R0u", "corrupt-H1u", "corrupt-double", "storm", "inject", "contract-state", "mid-rpc-host", "mid-rpc-both", "two-hosts"} {
 			if only != nil && only.RPC != rpc {
 				continue
 			}
 			if part == "contract-state" && rpc == "form" {
+				continue
+			}
+			if part == "two-hosts" && rpc != "form" {
 				continue
 			}
 			if (part == "corrupt-double" || strings.HasSuffix(part, "u")) && !r.Thorough() {
@@ -1103,7 +1308,7 @@ func runC16(r *mon.Run, replay string) {
 	vcli.Parallel(len(jobs), func(i int) {
 		j := jobs[i]
 		t0 := time.Now()
-		x, err := newC16Lab(r, j.rpc, uint64(2000+i), only, strings.HasPrefix(j.part, "mid-rpc"))
+		x, err := newC16Lab(r, j.rpc, uint64(2000+i), only, strings.HasPrefix(j.part, "mid-rpc"), j.part == "two-hosts")
 		if err != nil {
 			harnessFail(r, "C16 lab "+j.rpc, err)
 			return
@@ -1164,6 +1369,14 @@ func runC16(r *mon.Run, replay string) {
 				x.attempt(c16Case{RPC: j.rpc, Fault: a, Fault2: &b, Basis: "same", Inputs: "confirmed", Phase: "corrupt"}, false)
 				r.Count("double_corruptions", 1)
 			}
+		case "two-hosts":
+			reps := r.Pick(2, 6)
+			for rep := 0; rep < reps; rep++ {
+				for _, outputs := range []int{1, 2, 3, 0} {
+					x.twoHosts(outputs, false)
+					x.twoHosts(outputs, true)
+				}
+			}
 		case "mid-rpc-host", "mid-rpc-both":
 			// the chain moves DURING the exchange; nobody corrupts anything. The
 			// lab has an independent observer node and a bystander wallet.
@@ -1210,6 +1423,13 @@ func runC16(r *mon.Run, replay string) {
 						continue
 					}
 					for _, m := range rhpmitm.SortedMethods(counts) {
+						if strings.Contains(m, "!") && os.Getenv("VERIF_C16_INTERFACE_LEGAL_RESULTS") == "" {
+							// results the interface documents but the real chain manager
+							// cannot produce for these handlers (an empty set after
+							// UpdateV2TransactionSet): reproduced on request only, see
+							// the report - the default run enumerates errors
+							continue
+						}
 						for occ := 1; occ <= counts[m]; occ++ {
 							op := fmt.Sprintf("inject:%s#%d", m, occ)
 							x.attempt(c16Case{RPC: j.rpc, Fault: mutation{Op: op}, Basis: basis, Inputs: inputs, Phase: "inject"}, false)
@@ -1246,6 +1466,10 @@ func runC16(r *mon.Run, replay string) {
 		r.Floor("basis_relation:fork", 50)
 		r.Floor("basis_relation:fork-known", 50)
 		r.Floor("injected_interface_failures", 150)
+		r.Floor("refunding_probes", 1500)
+		r.Floor("refunding_probes_with_unconfirmed_outputs", 150)
+		r.Floor("two_host_cases", 12)
+		r.Floor("two_host_both_succeeded", 4)
 		r.Floor("blocks_mined_mid_rpc", 400)
 		r.Floor("sets_accepted_by_independent_pool", 150)
 		for _, p := range []string{"R0", "H0", "sign", "R1", "H1"} {
